@@ -2,6 +2,8 @@ package bloomsearch
 
 import (
 	"context"
+	"log/slog"
+	"time"
 )
 
 // ---------------------------------------------------------------------------------------------
@@ -20,10 +22,14 @@ func vpPartitionBuffer(id string) *partitionBuffer {
 }
 
 func vpFlushEngine(w *vpWorld) *BloomSearchEngine {
-	return &BloomSearchEngine{
+	b := &BloomSearchEngine{
 		config:    BloomSearchEngineConfig{BloomFalsePositiveRate: 0.01, RowDataCompression: CompressionNone},
 		metaStore: &vpMeta{w}, dataStore: &vpStore{w},
 	}
+	if !vpSymbolic() { // NewBloomSearchEngine never leaves the logger nil; the encoder treats slog calls as no-ops
+		b.logger = slog.New(slog.DiscardHandler)
+	}
+	return b
 }
 
 func vpCheckFlushOutcome(w *vpWorld, answers []error, withAbort bool) {
@@ -86,4 +92,68 @@ func H_C06_ack_only_flush() {
 	b.handleFlush(context.Background(), flushRequest{doneChans: []chan error{d}})
 	vpAssert(len(w.events) == 0, "C06: ack-only flush touched a store")
 	vpAssert(len(d) == 1 && <-d == nil, "C06: ack-only flush did not ack nil exactly once")
+}
+
+// vpBatchRow: a row that marshals, or one that does not (a chan value; the encoder's
+// encoding/json.Marshal model fails on the key "bad", natively the chan does).
+func vpBatchRow(bad bool, part string) map[string]any {
+	if bad {
+		return map[string]any{"bad": make(chan int), "p": part}
+	}
+	return map[string]any{"a": "x", "p": part}
+}
+
+// indexRow is never reached on a rejected batch; the stub only lets the encoder follow code
+// changes that do ingest such a batch far enough to see the buffers change.
+func vpIndexRowNop(s *bloomEntrySets, rowBytes []byte, tokenizer ValueTokenizerFunc) {}
+
+func vpPartitionByP(row map[string]any) string {
+	s, _ := row["p"].(string)
+	return s
+}
+
+// A batch with an unmarshalable row is answered with an error exactly once and leaves no trace:
+// buffers, waiters and counters of the ingest actor are exactly as before (so none of its rows can
+// ever be flushed), wherever the bad row sits in the batch and whichever partitions it spans.
+//
+//vp:override (*bs.bloomEntrySets).indexRow=vpIndexRowNop
+//vp:bounds batches of 1..3 rows, each unmarshalable or good (at least one unmarshalable), each in partition p (already buffered) or q (new); PartitionFunc nil or by field; one earlier batch buffered with its waiter
+func H_C06_rejected_batch_leaves_no_trace() {
+	b := &BloomSearchEngine{config: BloomSearchEngineConfig{BloomFalsePositiveRate: 0.01, RowDataCompression: CompressionNone,
+		MaxRowGroupRows: 1000, MaxRowGroupBytes: 1 << 20, MaxBufferedRows: 1000, MaxBufferedBytes: 1 << 20, MaxBufferedTime: time.Hour}}
+	if !vpSymbolic() {
+		b.logger = slog.New(slog.DiscardHandler)
+	}
+	if nondetBool() {
+		b.config.PartitionFunc = vpPartitionByP
+	}
+	pre := vpPartitionBuffer("p")
+	bufs := map[string]*partitionBuffer{"p": pre}
+	w0 := make(chan error, 1)
+	waiters := []chan error{w0}
+	rowCount, byteCount := 1, 6
+	var started time.Time
+	n := 1 + nondetChoice(3)
+	nBad := 0
+	rows := make([]map[string]any, 0, n)
+	for i := 0; i < n; i++ {
+		bad := nondetBool()
+		part := "p"
+		if nondetBool() {
+			part = "q"
+		}
+		if bad {
+			nBad++
+		}
+		rows = append(rows, vpBatchRow(bad, part))
+	}
+	vpAssume(nBad > 0)
+	d := make(chan error, 1)
+	b.processIngestRequest(context.Background(), &ingestRequest{rows: rows, doneChan: d}, bufs, &waiters, &rowCount, &byteCount, &started)
+	vpAssert(len(d) == 1, "C05/C06: rejected batch was not answered exactly once")
+	vpAssert(<-d != nil, "C06: nil acknowledged for a batch with an unmarshalable row")
+	vpAssert(len(bufs) == 1 && bufs["p"] == pre, "C06: rejected batch changed the set of partition buffers")
+	vpAssert(pre.rowCount == 1 && pre.uncompressedSize == 6 && pre.buffer.Len() == 6 && len(pre.minMaxIndexes) == 0, "C06: rejected batch left rows or indexes in a partition buffer")
+	vpAssert(len(waiters) == 1 && waiters[0] == w0 && len(w0) == 0, "C06: rejected batch changed the waiters of the buffered batches")
+	vpAssert(rowCount == 1 && byteCount == 6 && started == (time.Time{}), "C06: rejected batch changed the buffered row/byte counters or the buffer clock")
 }
